@@ -1,13 +1,14 @@
 """C02 - see properties.jsonl; DESIGN.md section 5."""
 from ._generic import run_property
 
-EXPLANATION = 'Mixed. P: writer.write_simple.write_to_file is executed symbolically from its real source on the byte-file model (make_row_group by contract: writes only at/after the current position): a fresh file is PAR1 ++ row groups ++ footer ++ le32(len returned by f.write) ++ PAR1, footer metadata updated before serialisation. B (labelled bounded): every file a write produces is decoded by an independent specification-level reader (spec/pqread.py, IDL-driven strict Thrift decode) and checked structurally (offsets, sizes, counts, page tiling, encodings, codec) and for value equality incl. NULL vs NaN.'
+EXPLANATION = 'Mixed. P: the whole of writer.write_column (data-page v1 and v2) executed symbolically with the page loop run for one arbitrary page under a 13-conjunct invariant proved on entry and after the body, make_row_group over an abstract schema with write_column by contract, and iter_dataframe: page header sizes = bytes after the header / plain length, num_values, v2 level lengths and num_nulls, chunk total sizes = sum over pages, data/dictionary page offsets, file_offset, encodings and encoding_stats, codec = codec actually applied, row group num_rows / total_byte_size / chunks in schema order (refuted ones are known findings; payload bytes are not covered, only lengths). writer.write_simple.write_to_file is executed symbolically from its real source on the byte-file model (make_row_group by contract: writes only at/after the current position): a fresh file is PAR1 ++ row groups ++ footer ++ le32(len returned by f.write) ++ PAR1, footer metadata updated before serialisation. B (labelled bounded): every file a write produces is decoded by an independent specification-level reader (spec/pqread.py, IDL-driven strict Thrift decode) and checked structurally (offsets, sizes, counts, page tiling, encodings, codec) and for value equality incl. NULL vs NaN.'
 
 
 def p_parts():
     from ._append import p_append
     from ._deflevels import p_deflevels
-    return [p_append, p_deflevels]
+    from ._bookkeeping import p_bookkeeping
+    return [p_append, p_deflevels, p_bookkeeping]
 
 
 def run(ctx):
